@@ -398,7 +398,7 @@ def _check_attributes(
     return errors
 
 
-def gather_default_attributes(obj, defaults):
+def gather_default_attributes(obj, defaults, back_end=""):
     """Gathers default attributes for an IR object.
 
     This is designed to be able to be used as-is as an incidental action in an
@@ -406,6 +406,8 @@ def gather_default_attributes(obj, defaults):
 
     Arguments:
         defaults: A dict of `{ "defaults": { attr.name.text: attr } }`
+        back_end: The qualifier of the attributes to gather; the empty string
+            selects the unqualified (front end) attributes.
 
     Returns:
         A dict of `{ "defaults": { attr.name.text: attr } }` with any defaults
@@ -413,7 +415,10 @@ def gather_default_attributes(obj, defaults):
     """
     defaults = defaults.copy()
     for attr in obj.attribute:
-        if attr.is_default:
+        if (
+            attr.is_default
+            and (ir_data_utils.reader(attr).back_end.text or "") == back_end
+        ):
             defaulted_attr = ir_data_utils.copy(attr)
             defaulted_attr.is_default = False
             defaults[attr.name.text] = defaulted_attr
